@@ -373,6 +373,16 @@ func (n *normalizer) exprInline(call *ast.CallExpr, file *ast.File) (string, boo
 // exprPass: one round of expression substitution and removal of closures without calls.
 func (n *normalizer) exprPass() map[string][]byte {
 	out := map[string][]byte{}
+	// first of all: local structs used field by field only (a round of its own)
+	for _, f := range n.pkg.Syntax {
+		if ed := n.sroaEdits(f); len(ed) > 0 {
+			fname := n.fset.Position(f.Pos()).Filename
+			out[fname] = applyEdits(n.src[fname], ed)
+		}
+	}
+	if len(out) > 0 {
+		return out
+	}
 	dead := map[ast.Stmt]bool{}
 	for _, ci := range n.closureTable() {
 		if ci.calls == 0 {
@@ -412,4 +422,170 @@ func (n *normalizer) exprPass() map[string][]byte {
 	}
 	n.extra = nil
 	return out
+}
+
+// Scalar replacement of local structs. A local variable of struct type whose only uses are
+// selections of its direct fields (`cnt.received`, `&v.p` - never the struct as a whole) is a
+// notational grouping of independent variables; it is split into one variable per field, so that
+// the fields become ordinary SSA values (go/ssa keeps a struct whose fields are addressed in
+// memory). sroaEdits returns the edits for one file.
+func (n *normalizer) sroaEdits(f *ast.File) []textEdit {
+	info := n.pkg.TypesInfo
+	var missing []*types.Package
+	q := n.qualifierFor(f, &missing)
+	src := n.src[n.fset.Position(f.Pos()).Filename]
+	text := func(e ast.Node) string { return string(src[n.off(e.Pos()):n.off(e.End())]) }
+	var edits []textEdit
+	for _, d := range f.Decls {
+		fd, ok := d.(*ast.FuncDecl)
+		if !ok || fd.Body == nil {
+			continue
+		}
+		type cand struct {
+			obj   types.Object
+			st    *types.Struct
+			decl  ast.Stmt
+			inits map[string]string
+			bad   bool
+			sels  []*ast.SelectorExpr
+		}
+		cands := map[types.Object]*cand{}
+		litInits := func(lit *ast.CompositeLit, st *types.Struct) (map[string]string, bool) {
+			out := map[string]string{}
+			for _, el := range lit.Elts {
+				kv, ok := el.(*ast.KeyValueExpr)
+				if !ok {
+					return nil, false
+				}
+				k, ok := kv.Key.(*ast.Ident)
+				if !ok {
+					return nil, false
+				}
+				out[k.Name] = text(kv.Value)
+			}
+			return out, true
+		}
+		ast.Inspect(fd.Body, func(x ast.Node) bool {
+			switch y := x.(type) {
+			case *ast.DeclStmt:
+				gd, ok := y.Decl.(*ast.GenDecl)
+				if !ok || gd.Tok != token.VAR || len(gd.Specs) != 1 {
+					return true
+				}
+				vs := gd.Specs[0].(*ast.ValueSpec)
+				if len(vs.Names) != 1 || vs.Names[0].Name == "_" || len(vs.Values) > 1 {
+					return true
+				}
+				o := info.Defs[vs.Names[0]]
+				if o == nil {
+					return true
+				}
+				st, ok := o.Type().Underlying().(*types.Struct)
+				if !ok {
+					return true
+				}
+				c := &cand{obj: o, st: st, decl: y, inits: map[string]string{}}
+				if len(vs.Values) == 1 {
+					lit, ok := vs.Values[0].(*ast.CompositeLit)
+					if !ok {
+						return true
+					}
+					if c.inits, ok = litInits(lit, st); !ok {
+						return true
+					}
+				}
+				cands[o] = c
+			case *ast.AssignStmt:
+				if y.Tok != token.DEFINE || len(y.Lhs) != 1 || len(y.Rhs) != 1 {
+					return true
+				}
+				id, ok := y.Lhs[0].(*ast.Ident)
+				lit, ok2 := y.Rhs[0].(*ast.CompositeLit)
+				if !ok || !ok2 || id.Name == "_" {
+					return true
+				}
+				o := info.Defs[id]
+				if o == nil {
+					return true
+				}
+				st, ok := o.Type().Underlying().(*types.Struct)
+				if !ok {
+					return true
+				}
+				inits, ok := litInits(lit, st)
+				if !ok {
+					return true
+				}
+				cands[o] = &cand{obj: o, st: st, decl: y, inits: inits}
+			}
+			return true
+		})
+		if len(cands) == 0 {
+			continue
+		}
+		// uses
+		var stack []ast.Node
+		ast.Inspect(fd.Body, func(x ast.Node) bool {
+			if x == nil {
+				stack = stack[:len(stack)-1]
+				return true
+			}
+			stack = append(stack, x)
+			id, ok := x.(*ast.Ident)
+			if !ok {
+				return true
+			}
+			c := cands[info.Uses[id]]
+			if c == nil {
+				return true
+			}
+			if len(stack) >= 2 {
+				if sel, ok := stack[len(stack)-2].(*ast.SelectorExpr); ok && sel.X == ast.Expr(id) {
+					if s := info.Selections[sel]; s != nil && s.Kind() == types.FieldVal && len(s.Index()) == 1 {
+						c.sels = append(c.sels, sel)
+						return true
+					}
+				}
+			}
+			c.bad = true
+			return true
+		})
+		for _, c := range cands {
+			if c.bad || len(c.sels) == 0 || c.st.NumFields() == 0 || c.st.NumFields() > 16 {
+				continue
+			}
+			// embedded fields, blank fields and name clashes are left alone
+			okF := true
+			var decl strings.Builder
+			scope := n.pkg.Types.Scope().Innermost(c.decl.Pos())
+			for i := 0; i < c.st.NumFields(); i++ {
+				fv := c.st.Field(i)
+				nm := c.obj.Name() + "_" + fv.Name()
+				if fv.Embedded() || fv.Name() == "_" {
+					okF = false
+					break
+				}
+				if scope != nil {
+					if _, found := scope.LookupParent(nm, c.decl.End()); found != nil {
+						okF = false
+						break
+					}
+				}
+				if init, has := c.inits[fv.Name()]; has {
+					fmt.Fprintf(&decl, "var %s %s = %s\n_ = %s\n", nm, types.TypeString(fv.Type(), q), init, nm)
+				} else {
+					fmt.Fprintf(&decl, "var %s %s\n_ = %s\n", nm, types.TypeString(fv.Type(), q), nm)
+				}
+			}
+			if !okF || len(missing) > 0 {
+				continue
+			}
+			edits = append(edits, textEdit{n.off(c.decl.Pos()), n.off(c.decl.End()), decl.String()})
+			for _, sel := range c.sels {
+				edits = append(edits, textEdit{n.off(sel.Pos()), n.off(sel.End()), c.obj.Name() + "_" + sel.Sel.Name})
+			}
+			n.log = append(n.log, fmt.Sprintf("%s: local struct %s split into its fields", n.fset.Position(c.decl.Pos()), c.obj.Name()))
+		}
+	}
+	return edits
 }
